@@ -1676,6 +1676,7 @@ func (s *BgpServer) handleFSMMessage(peer *peer, e *fsmMsg) {
 				s.propagateUpdate(peer, peer.StaleAll(gracefulFamilies))
 			} else {
 				dropFamilies = peer.configuredRFlist()
+				peer.stopPeerRestarting()
 			}
 
 			// Always clear EndOfRibReceived state on PeerDown
